@@ -21,4 +21,18 @@ META['C19'] = P('other', 'Purity is claimed partially: the model is a function b
                 'monitoring (fd 1/2 capture of a silent worker, repetition, shuffling, 16 threads) plus differential comparison with the model.',
                 'DESIGN.md section 7 (C19)', 'runtime monitoring + differential comparison with the Coq model',
                 'Not exhibited by any model: thread interleavings not scheduled, output via other descriptors, state that matters only after more calls than run.')
+
+PROOF_TECH = 'Rocq (Coq 8.16) proof over an executable model + differential correspondence check against the crate'
+PROVED = {
+ 'C01': ('Theorems C01_message_total / C01_avps_total / C01_type_total / C01_loop_bound (coq/theories/Properties/C01.v): for every octet string and option set '
+         'the Model decoder returns Val (Ok or non-empty Err) -- never Panic (incl. checked subtraction = debug overflow panic and release wrap), UB or OutOfFuel; '
+         'corollaries of the refinement m_decode = s_decode. The per-case time bound is covered by a watchdog on generated inputs only (partial).'),
+ 'C02': ('Theorems C02_no_contract_violation and C02_program_parametric / C02_reader_parametric / C02_avps_parametric / C02_type_parametric: no run issues an '
+         'out-of-contract reader call, and for every Reader implementation satisfying Conforms the decoder returns the same result and leaves the reader at the same '
+         'suffix (one induction over decoder programs as a free monad over the Reader trait). reveal() builds its own SliceReader: covered by (a) only, see C13.'),
+ 'C05': ('Theorems C05_decode_refines_spec / C05_avps_refine_spec / C05_payload_refines_spec: the Model decoder equals the positional executable specification '
+         'Spec/SpecDecode.v on complete results (value + remaining input, or the whole error list) for every octet string and option set.'),
+}
+for pid, txt in PROVED.items():
+    META[pid] = P('proof', txt, 'DESIGN.md section 7 (%s)' % pid, PROOF_TECH, CORR)
 NOT_APPLICABLE = []
